@@ -92,6 +92,31 @@ def run_ir(R, name):
     jax.make_jaxpr(probe_reset)(key)
     R.structural("step does not modify its state argument (all leaves are the identical objects after the call)", untouched.get("step", False), {"config": name})
     R.structural("reset does not modify its key argument", untouched.get("reset", False), {"config": name})
+    # results are VALUES: a state returned by an eager call must not change when the environment is called again (a generator that
+    # caches one State object and rewrites it, an in-place update shared between input and output), and the arguments must still be
+    # usable afterwards (a buffer donated to an inner jit is deleted under the caller's feet).  Eager calls, real objects.
+    try:
+        kA, kB = jax.random.PRNGKey(101), jax.random.PRNGKey(202)
+        rA = env.reset(kA)
+        snapA = jax.tree_util.tree_map(lambda x: np.array(x, copy=True), rA)
+        rB = env.reset(kB)
+        jax.make_jaxpr(env.reset)(key)      # a later trace must not leak into earlier results either
+        same_after = WC.np_tree_equal(rA, snapA)
+        again = env.reset(kA)
+        R.structural("reset: an eagerly returned (state, timestep) is unchanged by later reset calls / traces, and reset(k) is reproducible after them",
+                     same_after and WC.np_tree_equal(again, snapA), {"config": name, "first_result_changed": not same_after, "differs": WC.diff_fields(rA, snapA) if not same_after else WC.diff_fields(again, snapA)})
+        s0 = rA[0]
+        snapS = jax.tree_util.tree_map(lambda x: np.array(x, copy=True), s0)
+        oA = env.step(s0, a0)
+        snapO = jax.tree_util.tree_map(lambda x: np.array(x, copy=True), oA)
+        arg_ok = WC.np_tree_equal(s0, snapS)
+        oB = env.step(s0, a0)              # replay from the SAME input state
+        R.structural("step: the state argument is intact after an eager call (values and buffers) and replaying step(state, action) gives the same transition",
+                     arg_ok and WC.np_tree_equal(oB, snapO) and WC.np_tree_equal(oA, snapO),
+                     {"config": name, "argument_changed": not arg_ok, "differs": WC.diff_fields(oB, snapO)})
+    except Exception as e:  # noqa
+        R.structural("eager reset/step leave their arguments and earlier results usable", False, {"config": name, "error": f"{type(e).__name__}: {str(e)[:200]}"})
+    R.validated += 6
     # concrete: repeating a call gives bitwise the same result (eager vs jit vs repeated)
     s1, t1 = env.reset(key)
     s2, t2 = jax.jit(env.reset)(key)
@@ -244,6 +269,8 @@ JOBTIMEOUT = {"quick": 600, "thorough": 2400}
 
 def jobs(tier, seed):
     js = [(f"{n}/ir", "checks.C02", "run_ir", {"name": n}) for n in configs.ALL]
+    # the other generators shipped with the environments (toy / csv / random-walk), whose reset path is different code
+    js += [(f"{n}/ir", "checks.C02", "run_ir", {"name": n}) for n in ("Maze@toy", "BinPack@toy", "BinPack@csv", "ConnectorRW", "Sokoban@toy", "PacMan@9x7")]
     js.append(("constructor-arguments", "checks.C02", "run_ctor_args", {}))
     for n in TRANSFORM_ENVS + (THOROUGH_EXTRA if tier == "thorough" else []):
         js.append((f"{n}/vmap2-scan2", "checks.C02", "run_transform", {"name": n, "B": 2, "L": 2}))
